@@ -591,3 +591,68 @@ Proof.
   apply wpick_eql; try reflexivity; [|apply eqlp_refl].
   rewrite qsum_scale. ring.
 Qed.
+
+(* ---------------------------------------------------------------- what the weighted percentile is *)
+
+Inductive psorted : list (Q * Q) -> Prop :=
+  | psorted_nil : psorted []
+  | psorted_cons x l : psorted l -> Forall (fun y => fst x <= fst y) l -> psorted (x :: l).
+Lemma pinsert_sorted x l : psorted l -> psorted (pinsert x l).
+Proof.
+  induction 1 as [|a l Hs IH Ha]; simpl.
+  - constructor; constructor.
+  - destruct (Qle_bool (fst x) (fst a)) eqn:E.
+    + apply Qle_bool_iff in E. constructor; [constructor; assumption|].
+      constructor; [assumption|]. eapply Forall_impl; [|exact Ha]. simpl. intros. lra.
+    + apply Qle_bool_false in E. constructor; [assumption|].
+      apply Forall_forall. intros y Hy. apply (proj1 (pinsert_In _ _ _)) in Hy.
+      destruct Hy as [->|Hy]; [lra|]. rewrite Forall_forall in Ha. apply Ha. exact Hy.
+Qed.
+Lemma psort_sorted l : psorted (psort l).
+Proof. induction l; simpl; [constructor | apply pinsert_sorted; assumption]. Qed.
+
+Lemma reach_pos t c : 0 < t -> reach t c = Qle_bool t c.
+Proof.
+  intro H. unfold reach. destruct (Qeq_bool t 0) eqn:E; [|reflexivity].
+  apply Qeq_bool_iff in E. lra.
+Qed.
+
+Lemma wpick_spec t : 0 < t -> forall l acc d, acc < t -> t <= acc + qsum (map snd l) ->
+  exists l1 v wv l2, l = l1 ++ (v, wv) :: l2 /\ wpick t acc l d = v /\
+    acc + qsum (map snd l1) < t /\ t <= acc + qsum (map snd l1) + wv.
+Proof.
+  intros Ht. induction l as [|[v w] l IH]; intros acc d Ha Hs.
+  - cbn in Hs. lra.
+  - cbn [wpick]. rewrite (reach_pos t _ Ht). cbn [map snd qsum fold_right] in Hs.
+    fold (qsum (map snd l)) in Hs. destruct (Qle_bool t (acc + w)) eqn:E.
+    + apply Qle_bool_iff in E. exists [], v, w, l. cbn [app map qsum fold_right].
+      split; [reflexivity|]. split; [reflexivity|]. split; lra.
+    + apply Qle_bool_false in E.
+      destruct (IH (acc + w) v E ltac:(lra)) as (l1 & v' & wv & l2 & El & Hp & H1 & H2).
+      exists ((v, w) :: l1), v', wv, l2. rewrite El. cbn [app map snd qsum fold_right].
+      fold (qsum (map snd l1)). split; [reflexivity|]. split; [exact Hp|]. split; lra.
+Qed.
+
+Lemma map_snd_combine (l w : list Q) : length w = length l -> map snd (combine l w) = w.
+Proof.
+  revert w; induction l as [|x l IH]; intros [|y w] H; simpl in *; try discriminate;
+    [reflexivity|]. rewrite IH; [reflexivity | lia].
+Qed.
+
+(* sklearn's weighted median is the LOWER weighted median: in value order, the first element at
+   which the cumulative weight reaches half of the total weight *)
+Theorem wpercentile_spec w l : length w = length l -> 0 < qsum w ->
+  exists s1 v wv s2,
+    Permutation (combine l w) (s1 ++ (v, wv) :: s2) /\ psorted (s1 ++ (v, wv) :: s2) /\
+    wpercentile w l = v /\
+    qsum (map snd s1) < qsum w * (1 # 2) /\ qsum w * (1 # 2) <= qsum (map snd s1) + wv.
+Proof.
+  intros Hlen Hpos. unfold wpercentile. set (s := psort (combine l w)).
+  assert (qsum (map snd s) == qsum w) as ET.
+  { unfold s. rewrite <- (qsum_perm _ _ (Permutation_map snd (psort_perm (combine l w)))).
+    rewrite map_snd_combine by assumption. reflexivity. }
+  destruct (wpick_spec (qsum (map snd s) * (1 # 2)) ltac:(lra) s 0 0 ltac:(lra) ltac:(lra))
+    as (s1 & v & wv & s2 & Es & Hp & H1 & H2).
+  exists s1, v, wv, s2. rewrite <- Es. split; [apply psort_perm|]. split; [apply psort_sorted|].
+  split; [exact Hp|]. split; lra.
+Qed.
